@@ -36,6 +36,9 @@ def _corruptions(valid, kind):
         out.append(("longer", jnp.concatenate([jnp.atleast_1d(arr).reshape(-1), jnp.ones((1,))]) if arr.ndim <= 1 else jnp.concatenate([arr, arr[:1]], axis=0)))
         if arr.ndim >= 1:
             out.append(("dropped_axis", arr.reshape(-1)[0]))
+        if arr.size > 1:
+            out.append(("length_one_broadcastable", arr.reshape(-1)[:1]))
+            out.append(("shape_(1,1)_broadcastable", arr.reshape(-1)[:1].reshape(1, 1)))
         out.append(("wrapped_in_list", [arr]))
         out.append(("wrapped_in_dict", {"x": arr}))
         out.append(("string", "oops"))
@@ -106,6 +109,9 @@ def extra_checks(tier, seed):
             ("int_dtype", [1, 0, 1] if tag == "isotropic" else [jnp.asarray([1, 0])] * 3),
             ("float_dtype", [1.0, 0.0, 1.0] if tag == "isotropic" else [jnp.asarray([1.0, 0.0])] * 3),
             ("wrong_leaf_shape", [jnp.asarray([True, False, True])] * 3),
+            ("length_one_leaf_broadcastable", [jnp.asarray([True])] * 3),
+            ("shape_(1,1)_leaf_broadcastable", [jnp.asarray([[False]])] * 3),
+            ("one_length_one_leaf", [jnp.asarray([True]), False, True] if tag == "isotropic" else [jnp.asarray([True]), jnp.asarray([True, False]), jnp.asarray([True, False])]),
             ("string", "yes"),
         ]
         for nm, bad in bad_flags:
@@ -228,7 +234,7 @@ def coverage_extra(tier, results, extra_results):
         "evaluations": n,
         "distinct_nontrivial": n,
         "exhaustive": True,
-        "rule": "every listed entry point x every single-field corruption in the finite domain {extra axis, longer, dropped axis, wrapped in list/dict/tuple, wrong dtype (int/float for bool), missing/extra entry, wrong object type (string/number/plain function), wrong ODE order, inadmissible lift, too few ensembles} x {dense, isotropic, blockdiag} where applicable; a case is non-trivial iff it differs from a valid argument set in exactly one field; all cases are distinct by construction (bounded stand-in, not a proof)",
+        "rule": "every listed entry point x every single-field corruption in the finite domain {extra axis, longer, dropped axis, wrapped in list/dict/tuple, wrong dtype (int/float for bool), missing/extra entry, wrong object type (string/number/plain function), wrong ODE order, inadmissible lift, too few ensembles} x {dense, isotropic, blockdiag} where applicable; a case is non-trivial iff it differs from a valid argument set in exactly one field; length-one / (1,1) arrays that would broadcast silently are part of the domain; all cases are distinct by construction (bounded stand-in, not a proof)",
     }
 
 
